@@ -421,6 +421,7 @@ class DownloadNode:
             when = now()
             if isinstance(result, Failure):
                 # this catches failures in decode or ciphertext hash
+                self._active_segment = None
                 for (d,c,seg_ev) in self._extract_requests(segnum):
                     seg_ev.error(when)
                     eventually(self._deliver, d, c, result)
